@@ -165,6 +165,17 @@ D48 = "D48:tags-backend-memo-survives-registration"
 # no finding is ever registered from here: known findings live in /verif/known_findings.json only (chk.violation matches them)
 LOCAL_KNOWN: dict[str, str] = {}
 KNOWN_SEEN: dict[str, int] = {}
+# "Decorated functions are executed on every call while a command is disabled": the commands whose ANSWER a strategy needs before
+# it may hand out a stored result instead of running the function.  A disabled command answers the default / None through the
+# disable middleware, i.e. "unknown": the strategy must then run the function - on every call, also when a result was stored
+# earlier (while everything was enabled).  None = the decorator runs the function on every call anyway (limiters, locks, ...).
+SERVE_GATES = {
+    "cache": ["get"], "cache_lock": ["get"], "cache_upper": ["get"], "early": ["get"], "soft": ["get"], "iterator": ["get"],
+    "hit": ["get", "incr"], "dynamic": ["get", "incr"],          # the stored result AND the hit counter that limits its use
+    "bloom": ["get_bits"], "dual_bloom": ["get_bits"],          # the filter bits
+    "failover": None, "rate_limit": None, "slice_rate_limit": None, "circuit_breaker": None, "locked": None, "invalidate": None,
+    "cache_tags": ["get"], "early_tags": ["get"], "soft_tags": ["get"], "hit_tags": ["get", "incr"], "dynamic_tags": ["get", "incr"],
+}
 
 
 # ---- scenario -> driver lines -----------------------------------------------------------------------------
@@ -319,7 +330,7 @@ def build_lines(sc, run):
             tx = 1 if ctx in intx else 0
             ks = list(dict.fromkeys(op[3])) if op[2] == "set_many" else op[3]      # `pairs` is a mapping
             lines.append((f"cmd {ctx} {tx} {op[2]} " + " ".join(rc.enc(x) for x in ks), i, "cmd"))
-        elif k == "dec" and op[2] == "cache" and not inv.get(ctx):
+        elif k == "dec" and op[2] == "cache" and not inv.get(ctx) and not sc.get("warm"):
             lines.append((f"dec {ctx} {rc.enc(op[3])} {op[4]}", i, "dec"))
         elif k == "comp":
             lines.append((comp_line(ctx, 1 if ctx in intx else 0, op, st), i, "comp"))
@@ -556,6 +567,7 @@ def spec_check(sc, run):
     bad = []
     regs_at = regs_before(sc)
     written = False
+    dec_owners: dict = {}          # (decorator, key template) -> backends its earlier steps talked to
     for i, (op, st) in enumerate(zip(sc["ops"], run["steps"])):
         k = op[0]
         regs = regs_at[i]
@@ -740,11 +752,29 @@ def spec_check(sc, run):
                 bad.append((i, sig, f"{op}: decorated call raised {st['exc']} (cache fully disabled: {st.get('full')})"))
             elif dk in ("locked", "invalidate") and st["execs"] != op[4]:
                 bad.append((i, f"{dk}-not-executed", f"{op}: the body ran {st['execs']} times in {op[4]} calls"))
+            elif "exc" not in st and "disall" in st and dk in SERVE_GATES and not st.get("full"):
+                # a command the strategy needs in order to serve a stored result is disabled for the backend of the key (or the
+                # decorator never serves stored results): the body runs on every call - also when a result was stored earlier
+                # the backends that serve the strategy's keys (decorators derive their keys from the template: prefixes such as
+                # ":v2:", counters, locks): those an earlier step of the same function talked to, and those of this step;
+                # nothing known: every registered backend
+                owners = sorted(dec_owners.get((dk, op[3]), set()) | {e["b"] for e in st["log"] if e["kind"] != "body"}) \
+                    or sorted(registered)
+                gates = SERVE_GATES[dk]
+                hit_gates = [] if gates is None else \
+                    [g for g in gates if all(g in st["disall"].get(str(b), []) for b in owners)]
+                owner = owners
+                if (gates is None or hit_gates) and st["execs"] < op[4]:
+                    why = f"{','.join(hit_gates)} disabled for backend(s) {owner}" if hit_gates else f"@{dk} never serves stored results"
+                    bad.append((i, "decorator-not-executed-command-disabled" if hit_gates else f"{dk}-not-executed",
+                                f"{op}: {why}, but the body ran {st['execs']} times in {op[4]} calls "
+                                f"(results {rc.canon(st.get('r'))})"))
             elif st.get("full") and "exc" not in st:
                 if st["execs"] != op[4]:
                     bad.append((i, "decorator-not-executed", f"{op}: cache fully disabled but the body ran {st['execs']} times in {op[4]} calls"))
                 if st["log"]:
                     bad.append((i, "disabled-decorator-issued", f"{op}: cache fully disabled but backend commands were issued: {[rc.fmt_call(e) for e in st['log']][:4]}"))
+            dec_owners.setdefault((dk, op[3]), set()).update(e["b"] for e in st.get("log", []) if e["kind"] != "body")
             if st.get("log"):
                 written = True
             if "disall" in st:
@@ -1669,6 +1699,32 @@ def gen_comp_big(rng):
             yield {"regs": [["", 0], [TAG, 1]], "ops": ops, "kind": "comp_big", "tagreg": [["big", "m{x}"]], "tagsets": {"big": members}}
 
 
+def gen_dec_warm(rng, prefixes, disabled, order):
+    """decorated functions with a result STORED EARLIER (warm-up calls while everything is enabled), then called again while
+    `disabled` (single commands / pairs) is switched off: for all backends, for the owner of the key only, for another backend
+    only; by disable(), inside disabling(), or inherited by a child task"""
+    regs = mk_regs(prefixes, rng)
+    kinds = list(rc.DECORATORS) + list(rc.TAG_DECORATORS)
+    rng.shuffle(kinds)
+    keys = {dk: f"{rng.choice(prefixes)}w!#{j}" for j, dk in enumerate(kinds)}
+    ops = [["dec", 0, dk, keys[dk], 2] for dk in kinds]                     # warm-up: the first call stores, the second is served
+    targets = list(prefixes) if order != "one_prefix" else [rng.choice(prefixes)]
+    ctx = 0
+    if order == "disabling":
+        ops += [["enter", 0, p, disabled] for p in targets]
+    elif order == "child":
+        ops += [["disable", 0, p, disabled] for p in targets] + [["fork", 0, 1]]
+        ctx = 1
+    else:
+        ops += [["disable", 0, p, disabled] for p in targets]
+    rng.shuffle(kinds)
+    ops += [["dec", ctx, dk, keys[dk], 3] for dk in kinds]
+    if order == "disabling":
+        ops += [["exit", 0] for _ in targets]
+        ops += [["dec", 0, dk, keys[dk], 2] for dk in kinds[:6]]             # enabled again: stored results are served again
+    return {"regs": regs, "ops": ops, "kind": "dec_warm_" + order, "warm": True}
+
+
 def gen_dec_tags(rng, prefixes, state):
     """decorators with tags= (every stored result is registered in its tag sets) under partial disables, then the key is deleted"""
     regs = mk_regs(prefixes, rng)
@@ -1802,6 +1858,18 @@ def interesting(sc, run):
                 tags.add("get_or_set_default_computed_because_get_disabled")
             if st.get("exc") == "NC":
                 tags.add("composite_not_configured")
+        if op[0] == "dec" and sc.get("warm") and "disall" in st and not st.get("full") and "exc" not in st:
+            owners = {e["b"] for j2, o in enumerate(sc["ops"][:i]) if o[0] == "dec" and o[2:4] == op[2:4]
+                      for e in run["steps"][j2].get("log", []) if e["kind"] != "body"}
+            offs = [set(st["disall"].get(str(b), [])) for b in owners]
+            off = set.intersection(*offs) if offs else set()
+            gates = SERVE_GATES.get(op[2]) or []
+            if any(g in off for g in gates):
+                tags.add("warm_decorator_called_with_a_serve_gate_disabled")
+                if "get" not in off:
+                    tags.add("warm_decorator_with_only_a_non_get_gate_disabled")
+            elif off and any(o[0] == "dec" and o[3] == op[3] for o in sc["ops"][:i]):
+                tags.add("warm_decorator_called_with_other_command_disabled")
         if op[0] == "dec" and op[2] in rc.TAG_DECORATORS:
             tags.add("decorator_with_tags" + ("_while_fully_disabled" if st.get("full") else ""))
         if op[0] == "cmd":
@@ -1987,6 +2055,16 @@ def generate(chk: Check):
     for state in ["set_add_off", "set_remove_off", "tag_prefix_off", "set_off", "full", "none"]:
         for _ in range(chk.budget(2, 12)):
             cases.append(("dec_tags", gen_dec_tags(rng, rng.choice([["", TAG], [""], ["", "a", TAG]]), state)))
+    # (J) decorated functions with a stored result under every single disabled command (and pairs with get / incr)
+    warm_orders = ["plain", "disabling", "child", "one_prefix"]
+    warm_sets = [[c] for c in cmds] + [["get", "incr"], ["incr", "set"], ["get_bits", "incr_bits"], ["set_lock", "incr"]]
+    for j, sub in enumerate(warm_sets):
+        gate = sub[0] in ("get", "incr", "get_bits") or len(sub) > 1
+        for o, order in enumerate(warm_orders):
+            if not (chk.thorough or gate) and (j + o) % 4:
+                continue                      # quick: commands no strategy gates on rotate through the surroundings
+            t = [[""], ["", "a"], ["a", "b"], ["", "a", "ab"]][(j + o) % 4] if not chk.thorough else rng.choice(tables)
+            cases.append(("dec_warm", gen_dec_warm(rng, t, sub, order)))
     return cases, n_sets, len(alphabet)
 
 
@@ -2080,7 +2158,10 @@ def run(chk: Check) -> int:
                 "a transaction, delete_tags of 100 / 101 members (enumerated); random control operations of up to 3 tasks with composites "
                 "in between (sampled); tag bookkeeping across registrations: tagged write + delete / `_tag:`, a prefix reaching into the tag part or "
                 "the default prefix set up (first time or again, enabled or disabled, same or other task) / tagged write + delete again "
-                "(enumerated), random histories of composites and registrations (sampled). distinct = distinct (table, op list)",
+                "(enumerated), random histories of composites and registrations (sampled). Warm decorators: all 21 decorator kinds called "
+                "twice while enabled (result stored), then three times under every single disabled command and four pairs x {all "
+                "backends, one prefix, disabling(), inherited by a child} (quick: commands that gate no strategy rotate through the "
+                "surroundings), judged by the serve-gate oracle (SERVE_GATES). distinct = distinct (table, op list)",
         "exhaustive": True,
         "exhaustive_subspace": f"all {n_sets} prefix sets of size <= 4 over a {n_alpha}-string alphabet x all keys (routing); "
                                f"all 28 single-command disabled sets + 'all' x 4 transaction nestings x all {len(rc.INVOKE)} public commands; "
